@@ -23,6 +23,60 @@ def apply_op(op, a, b):
         return 'foreign:' + type(ex).__name__
 
 
+# ---- whole ontologies ---------------------------------------------------------------------------------------------
+
+BRICK_OT = dict(G.base_objecttype(), name='brick.ot')
+BRICK_C = dict(G.base_concept(), name='brick.c')
+_BRICK = []
+
+
+def register_brick():
+    """An ontology brick offering one object type and one concept, registered with the Ontology class once per process (as
+    programs that use brick packages do when they are imported)."""
+    if _BRICK:
+        return
+    from edxml.ontology import Ontology, Brick
+
+    class VfBrick(Brick):
+        @classmethod
+        def generate_object_types(cls, target_ontology):
+            yield G.build_objecttype(target_ontology, BRICK_OT)
+
+        @classmethod
+        def generate_concepts(cls, target_ontology):
+            yield G.build_concept(target_ontology, BRICK_C)
+    Ontology.register_brick(VfBrick)
+    _BRICK.append(VfBrick)
+
+
+def run_ontologies(case):
+    """Every ordered pair of the ontologies compared with == (twice) and !=; serialization and change counter of every
+    ontology before and after."""
+    from vf.props import c11
+    from lxml import etree
+    register_brick()
+    onts = []
+    for spec, brick in zip(case['onts'], case['brick']):
+        try:
+            o = c11.build_ontology(spec)
+            if brick:
+                G.build_objecttype(o, BRICK_OT)
+                G.build_concept(o, BRICK_C)
+            o.validate()
+        except Exception:
+            return {'unbuildable': True}
+        onts.append(o)
+    before = [(etree.tostring(o.generate_xml()), o.get_version()) for o in onts]
+    word = {True: 'equal', False: 'different', 'EDXMLOntologyValidationError': 'conflict'}
+    first = [[word.get(apply_op('eq', a, b), apply_op('eq', a, b)) for b in onts] for a in onts]
+    second = [[word.get(apply_op('eq', a, b), apply_op('eq', a, b)) for b in onts] for a in onts]
+    ne = [[apply_op('ne', a, b) for b in onts] for a in onts]
+    after = [(etree.tostring(o.generate_xml()), o.get_version()) for o in onts]
+    return {'eq': first, 'again': second == first, 'ne_consistent': all(
+        (n == 'EDXMLOntologyValidationError') if e == 'conflict' else (n is (e != 'equal')) for er, nr in zip(first, ne) for e, n in zip(er, nr)),
+        'pure': before == after, 'same_xml': [[x[0] == y[0] for y in before] for x in before]}
+
+
 # ---- the base ontology check of the transcoder test harness (a whole-ontology comparison through another door) ----
 
 BASE_EDITS = ['none', 'ot-description', 'ot-description-newer', 'ot-datatype', 'ot-datatype-newer', 'et-description',
@@ -139,7 +193,7 @@ class C09(Property):
     title = 'Version comparison of ontology definitions is a consistent order'
     design_ref = 'DESIGN.md section 10, C09'
     required_theorems = (
-        'cmp_refl', 'cmp_antisymm', 'cmp_antisymm_all_kinds', 'eq_same_definition_all_kinds', 'upgrade_trans_objecttype',
+        'cmp_refl', 'cmp_antisymm', 'cmp_antisymm_all_kinds', 'ontEq_symm', 'ontEq_refl', 'ontEq_equal_same', 'eq_same_definition_all_kinds', 'upgrade_trans_objecttype',
         'upgrade_trans_flat_kinds', 'upgrade_trans_property',
     )
     level_text = ('Lean 4 theorems over the model of the ten __cmp__ methods (one generic skeleton, per-kind flag '
@@ -165,6 +219,12 @@ class C09(Property):
         n = 60 if tier == 'quick' else 1500
         for edit in BASE_EDITS:
             yield {'kind': 'harness-base', 'edit': edit, 'defs': []}
+        from vf.props import c11
+        for i in range(80 if tier == 'quick' else 2000):
+            # whole ontologies derived from a common ancestor (some definitions missing, upgraded or edited incompatibly),
+            # some of them holding the definitions that a registered brick offers
+            fam = c11.gen_upgrade_chain(rng) if i % 4 == 3 else c11.gen_family(rng)[0]
+            yield {'kind': 'ontologies', 'onts': fam, 'brick': [rng.random() < 0.5 for _ in fam], 'defs': []}
         for kind in G.KINDS:
             for i in range(n if kind != 'eventtype' else 2 * n):
                 a = G.base_of(kind)
@@ -186,6 +246,8 @@ class C09(Property):
         kind = case['kind']
         if kind == 'harness-base':
             return run_harness_base(case['edit'])
+        if kind == 'ontologies':
+            return run_ontologies(case)
         built = [G.build(kind, s) for s in case['defs']]
         if case.get('mutated_from') is not None:
             a = case['mutated_from']
@@ -220,11 +282,24 @@ class C09(Property):
     def requests(self, case):
         if case['kind'] == 'harness-base':
             return []
+        if case['kind'] == 'ontologies':
+            from vf.props import c11
+
+            def m_ont(o, brick):
+                m = {mkey: ([G.model_def(kind, o[slot])] if o.get(slot) else []) for slot, kind, mkey in c11.SLOTS}
+                if brick:
+                    m['objectTypes'] = m['objectTypes'] + [G.model_def('objecttype', BRICK_OT)]
+                    m['concepts'] = m['concepts'] + [G.model_def('concept', BRICK_C)]
+                return m
+            return [{'op': 'onteq', 'onts': [m_ont(o, b) for o, b in zip(case['onts'], case['brick'])]}]
         return [{'op': 'cmp', 'kind': case['kind'], 'defs': [G.model_def(case['kind'], s) for s in case['defs']]}]
 
     def predict(self, case, replies):
         if case['kind'] == 'harness-base':
             return 'undecided'
+        if case['kind'] == 'ontologies':
+            eq = replies[0]['eq']
+            return {'eq': eq, 'again': True, 'ne_consistent': True, 'pure': True, 'same_xml': 'undecided'}
         m = replies[0]['cmp']
         kind = case['kind']
         defs = case['defs']
@@ -235,7 +310,11 @@ class C09(Property):
                 'roundtrip': [[True, True] if root else None for _ in defs]}
 
     def fill_undecided(self, case, obs, pred):
-        return obs if pred == 'undecided' else pred
+        if pred == 'undecided' or (isinstance(obs, dict) and obs.get('unbuildable')):
+            return obs
+        if isinstance(pred, dict) and pred.get('same_xml') == 'undecided':
+            pred['same_xml'] = obs.get('same_xml')
+        return pred
 
     def oracle(self, case, obs):
         if case['kind'] == 'harness-base':
@@ -250,6 +329,25 @@ class C09(Property):
                 return '%s: a pair of definitions is in conflict, but the harness accepted the base ontology' % what
             if not obs['pairs_incompatible'] and obs['outcome'] != 'accepted':
                 return '%s: every pair of shared definitions is equal or a valid upgrade, but the harness rejected the base ontology' % what
+            return None
+        if case['kind'] == 'ontologies':
+            if obs.get('unbuildable'):
+                return None
+            if not obs['pure']:
+                return 'comparing ontologies modified an operand (serialisation or change counter changed)'
+            if not obs['again']:
+                return 'comparing the same ontologies a second time gives another answer'
+            if not obs['ne_consistent']:
+                return '!= is not the negation of == for a pair of ontologies'
+            eq = obs['eq']
+            for i in range(len(eq)):
+                if eq[i][i] != 'equal':
+                    return 'ontology %d does not compare equal to itself: %r' % (i, eq[i][i])
+                for j in range(len(eq)):
+                    if eq[i][j] != eq[j][i]:
+                        return 'ontologies %d and %d: == answers %r from one side and %r from the other' % (i, j, eq[i][j], eq[j][i])
+                    if eq[i][j] == 'equal' and not obs['same_xml'][i][j]:
+                        return 'ontologies %d and %d compare equal but serialize differently' % (i, j)
             return None
         ops = obs['ops']
         n = len(ops)
@@ -285,6 +383,8 @@ class C09(Property):
         out = []
         if case['kind'] == 'harness-base':
             return [{'kind': 'harness-base', 'edit': e, 'defs': []} for e in BASE_EDITS]
+        if case['kind'] == 'ontologies':
+            return []
         if case['kind'] == 'objecttype':
             # an extension in several steps: put the definitions in between into the triple (upgrades must compose)
             for a in case['defs']:
@@ -323,6 +423,8 @@ class C09(Property):
     def nontrivial(self, case):
         if case['kind'] == 'harness-base':
             return json.dumps(case, sort_keys=True) if case['edit'] != 'none' else None
+        if case['kind'] == 'ontologies':
+            return json.dumps(case, sort_keys=True)
         keys = {json.dumps(s, sort_keys=True) for s in case['defs']}
         if len(keys) < 2:
             return None
